@@ -320,14 +320,12 @@ Fixpoint job_fold {T S} (task : list val -> res T) (step : S -> T -> res S) (ps 
   | p :: ps' => t <- task p ;; acc' <- step acc t ;; job_fold task step ps' acc'
   end.
 
-(* reduce(): f_without_empty over an _empty sentinel *)
-Definition f_we (f : op2) (a : option val) (b : option val) : res (option val) :=
-  match a, b with
-  | None, _ => Ok b
-  | _, None => Ok a
-  | Some x, Some y => rmap Some (f x y)
+(* reduce(): each task returns [] for an empty partition and [functools.reduce(f, rest, first)] otherwise *)
+Definition reduce_partition (f : op2) (p : list val) : res (list val) :=
+  match p with
+  | [] => Ok []
+  | x :: p' => r <- foldM f p' x ;; Ok [r]
   end.
-Definition reducer (f : op2) (vs : list (option val)) : res (option val) := foldM (f_we f) vs None.
 
 Fixpoint chain_first (ps : parts) : res val :=
   match ps with
@@ -342,9 +340,10 @@ Definition islice_chain (n : Z) (ps : parts) : res val :=
 
 Definition sum_ints (xs : list val) : res Z := foldM (fun a v => z <- int_of v ;; Ok (a + z)) xs 0.
 
+(* lookup(key) = filter(x[0] == key).values().collect(): the two lazy generators are chained, so each
+   element is tested and, if it passes, projected before the next element is looked at *)
 Definition lookup_fn (key : val) : genf :=
-  fun x => k <- py_getitem x 0 ;; Ok (if val_eqb k key then [x] else []).
-Definition values_fn : genf := fun e => v <- py_getitem e 1 ;; Ok [v].
+  fun x => k <- py_getitem x 0 ;; if val_eqb k key then (v <- py_getitem x 1 ;; Ok [v]) else Ok [].
 
 Definition ext_result (is_max : bool) (s : ext_state) : val :=
   match snd s with
@@ -360,15 +359,19 @@ Definition run_act (a : act) (ps : parts) : res val :=
   | ATake n => islice_chain n ps
   | ASum => rmap VInt (job_fold sum_ints (fun s c => Ok (s + c)) ps 0)
   | AReduce f =>
-      r <- job_fold (fun p => reducer f (map Some p)) (f_we f) ps None ;;
-      match r with Some v => Ok v | None => Err "ValueError" end
+      (* the result handler concatenates the partial lists of ALL tasks in partition order; the driver then
+         raises ValueError if there is none, else left-folds them *)
+      partials <- mapM (reduce_partition f) ps ;;
+      match concat partials with
+      | [] => Err "ValueError"
+      | v :: vs => foldM f vs v
+      end
   | AFold z op => job_fold (fun p => foldM op p z) op ps z
   | AAggregate z seq comb => job_fold (fun p => foldM seq p z) comb ps z
   | ACountByValue => rmap table_val (job_fold count_values (fun acc t => Ok (merge_counts acc t)) ps [])
   | ATop n k => q <- apply_tr (TSortBy k false None) ps ;; islice_chain n q
   | ATakeOrdered n k => q <- apply_tr (TSortBy k true None) ps ;; islice_chain n q
-  | ALookup key =>
-      q <- mapM (flat_mapM (lookup_fn key)) ps ;; q' <- mapM (flat_mapM values_fn) q ;; Ok (VList (concat q'))
+  | ALookup key => q <- mapM (flat_mapM (lookup_fn key)) ps ;; Ok (VList (concat q))
   | ACollectAsMap => rmap dict_val (dict_of (concat ps))
   | AToLocalIterator => Ok (VList (concat ps))
   | AMin => zs <- mapM ints_of ps ;; Ok (ext_result false (ext_parts false zs))
@@ -393,7 +396,7 @@ Definition run_list (a : act) (xs : list val) : res val :=
   | ACountByValue => rmap table_val (count_values xs)
   | ATop n k => s <- py_sorted k false xs ;; Ok (VList (py_slice_to n s))
   | ATakeOrdered n k => s <- py_sorted k true xs ;; Ok (VList (py_slice_to n s))
-  | ALookup key => r <- flat_mapM (lookup_fn key) xs ;; r' <- flat_mapM values_fn r ;; Ok (VList r')
+  | ALookup key => r <- flat_mapM (lookup_fn key) xs ;; Ok (VList r)     (* [e[1] for e in xs if e[0] == key] *)
   | ACollectAsMap => rmap dict_val (dict_of xs)
   | AToLocalIterator => Ok (VList xs)
   | AMin => zs <- ints_of xs ;;
